@@ -31,3 +31,33 @@ def k_native(P, ks, a):
     finally:
         import shutil
         shutil.rmtree(d, ignore_errors=True)
+
+
+def conv_native(P, ks, a):
+    """replay of an E2 conversion counterexample through the public API of the compiled family"""
+    from engine import shapes
+    fam, which = P['family'], P['which']
+    cl = shapes.classes(fam, 'c')
+    n = a['n'] if a['is_int'] else 'not-an-int'
+    ch = fam[0] if which == 'key' else fam[1]
+    bits, signed = {'I': (32, True), 'U': (32, False), 'L': (64, True), 'Q': (64, False)}[ch]
+    lo, hi = (-(1 << (bits - 1)), (1 << (bits - 1)) - 1) if signed else (0, (1 << bits) - 1)
+    ok = a['is_int'] and lo <= a['n'] <= hi
+    b = cl['Bucket']()
+    ctx = {'harness': 'conv_native', 'family': fam, 'which': which}
+    try:
+        if which == 'key':
+            b[n] = 1
+            back = list(b.keys())
+        else:
+            b[1] = n
+            back = list(b.values())
+        exc = None
+    except TypeError:
+        exc, back = 'TypeError', list(b.keys())
+    except Exception as e:      # noqa
+        exc, back = type(e).__name__, None
+    if ok and (exc is not None or back != [a['n']]):
+        fail('a representable integer was rejected or changed by the compiled conversion', ctx, exc, back)
+    if not ok and (exc != 'TypeError' or back):
+        fail('an unrepresentable argument was not rejected with TypeError by the compiled conversion', ctx, exc, back)
